@@ -7,7 +7,7 @@ mkdir -p $W/regexml && cp -r /repo/regexml/src $W/regexml/src
 ( cd $W && patch -s -p1 < $P ) || { echo "PATCH DOES NOT APPLY"; rm -rf $W; exit 3; }
 cd /verif
 ids=$(python3 -c "import json;print(' '.join(c['property_id'] for c in json.load(open('MANIFEST.json'))['checks']))")
-mkdir -p build/tp_$N
+rm -rf build/tp_$N; mkdir -p build/tp_$N
 for p in $ids; do (VERIF_REPO=$W VERIF_EVIDENCE_DIR=build/tp_ev_$N ./check $p > build/tp_$N/$p.txt 2>&1; echo "$p rc=$?" >> build/tp_$N/rc.txt) & done; wait
 rm -rf $W build/tp_ev_$N
 echo "== $N"; sort build/tp_$N/rc.txt | tr '\n' ' '; echo
